@@ -24,12 +24,14 @@ def run(ctx):
 
     # 1. the design spec under faults, cancellation and death
     runs = [("ImageCopyMC", "C04_mc_quick.cfg", "img, two registries, 1 fault + cancel, full interleaving", {}),
-            ("ImageCopyMC", "C04_mc_layout.cfg", "img, layout target, 1 fault + cancel, repaired wait loop", {})]
+            ("ImageCopyMC", "C04_mc_layout.cfg", "img, layout target, 1 fault + cancel", {}),
+            ("ImageCopyMC", "C04_mc_shared.cfg", "diamond2 (one manifest under two parents), registry / layout target, full interleaving", {})]
     if th:
         runs += [("ImageCopyMC", "C04_mc_t1.cfg", "img, 3 registry-target pairings, mount on/off, 1 fault + cancel", {"timeout": 3000}),
                  ("ImageCopyMC", "C04_mc_t2.cfg", "schema1, corner targets, mount on/off, 2 faults + cancel", {"timeout": 3000}),
                  ("ImageCopyMC", "C04_mc_t3.cfg", "schema1 / inline / empty, default + force-recursive, 1 fault + cancel", {"timeout": 3000}),
-                 ("ImageCopyMC", "C04_mc_t4.cfg", "layout targets, corner targets, repaired wait loop, 1 fault + cancel", {"timeout": 3000})]
+                 ("ImageCopyMC", "C04_mc_t4.cfg", "layout targets, corner targets, 1 fault + cancel", {"timeout": 3000}),
+                 ("ImageCopyMC", "C04_mc_t5.cfg", "diamond2, two registries, 1 fault + cancel, full interleaving", {"timeout": 3000})]
     mc, states, trans = cc.run_mc(ctx, runs)
     defect = cc.defect_model_run(ctx)
 
@@ -71,12 +73,20 @@ def run(ctx):
                                   seed=rng.randrange(1 << 30))
                         sh_sw.append(s2)
     sh_sw = cc.cover_sample(rng, sh_sw, 3000 if th else 480, [lambda s: (s["shape"], s["pair"], s["faults"][0]["class"])])
+    # slow requests (every request of every fault-free run held back as long as anything else can move), in
+    # particular the PUT of a manifest that two parents share; and the double fault PUT + rewind on one blob
+    slow = e.slow_requests(bres, "slow")
+    slow = cc.cover_sample(rng, slow, 6000 if th else 520,
+                           [lambda s: (s["shape"], s["hold"][0]["class"]), lambda s: (s["shape"], s["pair"]),
+                            lambda s: (s["shape"] in ("diamond", "diamond2", "nested", "idx2"), s["pair"], s["hold"][0]["class"], s["hold"][0]["n"])])
+    rew = e.rewinds(bres, "rewind")
+    rew = cc.cover_sample(rng, rew, 2500 if th else 220, [lambda s: (s["shape"], s["pair"]), lambda s: (s["faults"][0]["kind"], s["faults"][1]["kind"])])
     # the scenario that shows findings/C04-1 reliably (a class that has produced a violation stays in every tier)
     demo = e.scn("big", "reg2dir", "c04-1-demo", mode="script", cancel_cb={"n": "LB", "occ": 2},
                  script=[{"op": "rel", "host": "src", "class": "manifest_get", "n": "S"},
                          {"op": "rel", "host": "src", "class": "blob_get", "n": "L2"}, {"op": "settle"},
                          {"op": "rel", "host": "src", "class": "blob_get", "n": "LB"}, {"op": "settle"}])
-    scns = scripts + sw + sh_sw
+    scns = scripts + sw + sh_sw + slow + rew
     scns, dropped = cc.limit_defect_prone(rng, scns, 700 if th else 300)
     res = bres + e.run(scns + [demo], "faults")
 
